@@ -27,6 +27,8 @@ type TypeTable struct {
 	tags        map[string]int           // dynamic type string -> tag
 	tagNames    []string
 	embSites    map[string]int // "T.f" -> bit index
+	zeroArrs    map[string]string
+	zeroDecls   []string
 	qual        types.Qualifier
 }
 
@@ -37,6 +39,7 @@ func newTypeTable(pkg *types.Package) *TypeTable {
 		structNamed: map[string]string{},
 		tags:        map[string]int{},
 		embSites:    map[string]int{},
+		zeroArrs:    map[string]string{},
 		qual:        types.RelativeTo(pkg),
 	}
 }
@@ -171,7 +174,7 @@ func (tt *TypeTable) zero(t types.Type) string {
 	case *types.Interface:
 		return "(mk-iface 0 0)"
 	case *types.Array:
-		return fmt.Sprintf("((as const %s) %s)", tt.sortOf(t), tt.zero(u.Elem()))
+		return tt.zeroArray(tt.sortOf(u.Elem()), tt.zero(u.Elem()))
 	case *types.Struct:
 		name := tt.structSortOf(t, u)
 		if u.NumFields() == 0 {
@@ -422,4 +425,20 @@ func sortedKeys[V any](m map[string]V) []string {
 	}
 	sort.Strings(ks)
 	return ks
+}
+
+// zeroArray: the all-zero array with the given element sort. Constant arrays need a value as element (cvc5 rejects
+// uninterpreted constants such as str_empty), so for other element sorts a named array with a defining axiom is used.
+func (tt *TypeTable) zeroArray(elemSort, elemZero string) string {
+	if elemSort == sInt || elemSort == sBool {
+		return fmt.Sprintf("((as const (Array Int %s)) %s)", elemSort, elemZero)
+	}
+	if n, ok := tt.zeroArrs[elemSort]; ok {
+		return n
+	}
+	n := fmt.Sprintf("zero_arr_%d", len(tt.zeroArrs))
+	tt.zeroArrs[elemSort] = n
+	tt.zeroDecls = append(tt.zeroDecls, fmt.Sprintf("(declare-const %s (Array Int %s))", n, elemSort),
+		fmt.Sprintf("(assert (forall ((k Int)) (! (= (select %s k) %s) :pattern ((select %s k)))))", n, elemZero, n))
+	return n
 }
